@@ -73,6 +73,9 @@ def _outcome_key(o):
 def _run_instance(inst):
     from symx import core
     t0 = time.time()
+    w = sys.modules.get('harness.world')
+    if w is not None:
+        w.reset_between_instances()
     eng = core.Engine(**inst.engine_kw)
     for k, v in getattr(inst, 'engine_attrs', {}).items():
         setattr(eng, k, v)
